@@ -1,19 +1,50 @@
 (* Entry points evaluated by the extracted runner (and by `Eval vm_compute` cross-checks):
    everything goes from primitive data (bit patterns as Z, rationals as Z pairs, conversion
-   expressions as written in the source) to primitive data.  Executable Gallina only. *)
+   expressions as written in the source) to primitive data, through the SAME definitions the
+   theorems are about (Model.Conv, Model.Quantity at the instances of Model.Storages).
+   Executable Gallina only. *)
 From Coq Require Import ZArith QArith List Bool.
 From Flocq Require Import Core BinarySingleNaN.
-From UomV Require Import Model.Tables Model.Conv Model.FloatM Model.Exact.
+From UomV Require Import Model.Tables Model.Conv Model.FloatM Model.FloatOps Model.Exact
+  Model.Quantity Model.Storages.
 Import ListNotations.
 Open Scope Z_scope.
 
-Inductive fty := F32 | F64.
+(* one operation of a history, as the harness names it *)
+Inductive hreq (val : Type) :=
+| HRBin (o : binop) (Ur : list cexpr) (b : val)     (* acc = acc op rhs (rhs in base units Ur) *)
+| HRSame (o : binop) (b : val)                      (* same-type operator, or scalar operand   *)
+| HRUn (o : unop).
+Arguments HRBin {val}. Arguments HRSame {val}. Arguments HRUn {val}.
 
+(* a request: which uom operation, on which types (as table data), with which values *)
+Inductive req (val : Type) :=
+| RNew (U : list cexpr) (d : list Z) (coef : cexpr) (const : option cexpr) (v : val)
+| RGet (U : list cexpr) (d : list Z) (coef : cexpr) (const : option cexpr) (v : val)
+| RRebase (ac : bool) (Ul Ur : list cexpr) (d : list Z) (v : val)
+| RBin (ac : bool) (o : binop) (Ul Ur : list cexpr) (dr : list Z) (a b : val)
+| RCmp (ac : bool) (o : cmpop) (Ul Ur : list cexpr) (d : list Z) (a b : val)
+| RPcmp (ac : bool) (Ul Ur : list cexpr) (d : list Z) (a b : val)
+| RMulAdd (ac : bool) (U Ua Ub : list cexpr) (da ds : list Z) (x a b : val)
+| RRoundTo (r : rnd) (U : list cexpr) (d : list Z) (coef : cexpr) (const : option cexpr) (v : val)
+| RUn (o : unop) (a : val)
+| RHist (ac : bool) (U : list cexpr) (d : list Z) (init : val) (ops : list (hreq val))
+| RCoef (e : cexpr).
+Arguments RNew {val}. Arguments RGet {val}. Arguments RRebase {val}. Arguments RBin {val}.
+Arguments RCmp {val}. Arguments RPcmp {val}. Arguments RMulAdd {val}. Arguments RRoundTo {val}.
+Arguments RUn {val}. Arguments RHist {val}. Arguments RCoef {val}.
+
+Definition zb (b : bool) : Z := if b then 1 else 0.
+
+(* ------------------------------------------------------------------ floats *)
 Section Float.
 Variables prec emax ew : Z.
 Context (Hprec : Prec_gt_0 prec) (Hmax : Prec_lt_emax prec emax).
 Notation fl := (binary_float prec emax).
 Notation ev := (eval_f prec emax Hprec Hmax).
+Notation St := (StF prec emax Hprec Hmax).
+Notation ofb := (of_bits prec emax Hprec Hmax ew).
+Notation tob := (to_bits prec emax ew).
 
 Definition cons_add (c : option cexpr) : fl :=
   match c with Some c => ev c | None => B754_zero true end.   (* ConstantOp::Add => -0.0 *)
@@ -22,22 +53,48 @@ Definition cons_sub (c : option cexpr) : fl :=
 
 Definition f_new (lib : flib) (U : list cexpr) (d : list Z) (coef : cexpr) (const : option cexpr)
     (v : fl) : fl :=
-  to_base (CFfloat prec emax Hprec Hmax lib) (map ev U) d (ev coef) (cons_add const) v.
-
+  q_new (St lib) (map ev U) d (ev coef) (cons_add const) v.
 Definition f_get (lib : flib) (U : list cexpr) (d : list Z) (coef : cexpr) (const : option cexpr)
     (v : fl) : fl :=
-  from_base (CFfloat prec emax Hprec Hmax lib) (map ev U) d (ev coef) (cons_sub const) v.
+  q_get (St lib) (map ev U) d (ev coef) (cons_sub const) v.
+Definition f_rebase (lib : flib) (ac : bool) (Ul Ur : list cexpr) (d : list Z) (v : fl) : fl :=
+  rebase (St lib) ac (map ev Ul) (map ev Ur) d v.
+Definition f_bin (lib : flib) (ac : bool) (o : binop) (Ul Ur : list cexpr) (dr : list Z) (a b : fl) : fl :=
+  if two_base o then q_bin (St lib) (fbin_sem prec emax Hprec Hmax o) ac (map ev Ul) (map ev Ur) dr a b
+  else q_same (St lib) (fbin_sem prec emax Hprec Hmax o) a b.
+Definition f_cmp (lib : flib) (ac : bool) (o : cmpop) (Ul Ur : list cexpr) (d : list Z) (a b : fl) : bool :=
+  q_bin (St lib) (fcmp_sem prec emax o) ac (map ev Ul) (map ev Ur) d a b.
+Definition f_pcmp (lib : flib) (ac : bool) (Ul Ur : list cexpr) (d : list Z) (a b : fl) : option comparison :=
+  q_bin (St lib) (fcmp prec emax) ac (map ev Ul) (map ev Ur) d a b.
+Definition f_muladd (lib : flib) (ac : bool) (U Ua Ub : list cexpr) (da ds : list Z) (x a b : fl) : fl :=
+  q_muladd (St lib) (ffma prec emax Hprec Hmax) ac (map ev U) (map ev Ua) (map ev Ub) da ds x a b.
+Definition f_round (lib : flib) (r : rnd) (U : list cexpr) (d : list Z) (coef : cexpr) (const : option cexpr)
+    (v : fl) : fl :=
+  q_round (St lib) (fround_op prec emax Hprec Hmax lib r) (map ev U) d (ev coef) (cons_add const) (cons_sub const) v.
 
-Definition f_rebase (lib : flib) (Ul Ur : list cexpr) (d : list Z) (v : fl) : fl :=
-  change_base (CFfloat prec emax Hprec Hmax lib) (map ev Ul) (map ev Ur) d v.
+Definition f_hop (lib : flib) (h : hreq Z) : hop (St lib) :=
+  match h with
+  | HRBin o Ur b => HBin (S:=St lib) (fbin_sem prec emax Hprec Hmax o) (map ev Ur) (ofb b)
+  | HRSame o b => HSame (S:=St lib) (fbin_sem prec emax Hprec Hmax o) (ofb b)
+  | HRUn o => HUn (S:=St lib) (fun_sem prec emax Hprec Hmax o)
+  end.
+Definition f_hist (lib : flib) (ac : bool) (U : list cexpr) (d : list Z) (init : fl) (ops : list (hreq Z)) : list fl :=
+  trace_q (St lib) ac (map ev U) d (map (f_hop lib) ops) init.
 
-Definition bits_new lib U d coef const (vb : Z) : Z :=
-  to_bits prec emax ew (f_new lib U d coef const (of_bits prec emax Hprec Hmax ew vb)).
-Definition bits_get lib U d coef const (vb : Z) : Z :=
-  to_bits prec emax ew (f_get lib U d coef const (of_bits prec emax Hprec Hmax ew vb)).
-Definition bits_rebase lib Ul Ur d (vb : Z) : Z :=
-  to_bits prec emax ew (f_rebase lib Ul Ur d (of_bits prec emax Hprec Hmax ew vb)).
-Definition bits_coef (e : cexpr) : Z := to_bits prec emax ew (ev e).
+Definition f_run (lib : flib) (r : req Z) : list Z :=
+  match r with
+  | RNew U d coef const v => [tob (f_new lib U d coef const (ofb v))]
+  | RGet U d coef const v => [tob (f_get lib U d coef const (ofb v))]
+  | RRebase ac Ul Ur d v => [tob (f_rebase lib ac Ul Ur d (ofb v))]
+  | RBin ac o Ul Ur dr a b => [tob (f_bin lib ac o Ul Ur dr (ofb a) (ofb b))]
+  | RCmp ac o Ul Ur d a b => [zb (f_cmp lib ac o Ul Ur d (ofb a) (ofb b))]
+  | RPcmp ac Ul Ur d a b => [cmp_code (f_pcmp lib ac Ul Ur d (ofb a) (ofb b))]
+  | RMulAdd ac U Ua Ub da ds x a b => [tob (f_muladd lib ac U Ua Ub da ds (ofb x) (ofb a) (ofb b))]
+  | RRoundTo r U d coef const v => [tob (f_round lib r U d coef const (ofb v))]
+  | RUn o a => [tob (fun_sem prec emax Hprec Hmax o (ofb a))]
+  | RHist ac U d init ops => map tob (f_hist lib ac U d (ofb init) ops)
+  | RCoef e => [tob (ev e)]
+  end.
 
 (* exact rational value of a float; None for NaN/infinities *)
 Definition f_to_q (x : fl) : option Q :=
@@ -50,30 +107,61 @@ Definition f_to_q (x : fl) : option Q :=
   end.
 End Float.
 
-Definition new32 := bits_new 24 128 8 p32 m32.
-Definition get32 := bits_get 24 128 8 p32 m32.
-Definition rebase32 := bits_rebase 24 128 8 p32 m32.
-Definition coef32 := bits_coef 24 128 8 p32 m32.
-Definition new64 := bits_new 53 1024 11 p64 m64.
-Definition get64 := bits_get 53 1024 11 p64 m64.
-Definition rebase64 := bits_rebase 53 1024 11 p64 m64.
-Definition coef64 := bits_coef 53 1024 11 p64 m64.
+Definition run32 := f_run 24 128 8 p32 m32.
+Definition run64 := f_run 53 1024 11 p64 m64.
 
-(* ---- exact classes: coefficients are from_f64 of the f64 evaluation of the expression ---- *)
-
+(* ------------------------------------------------------------------ exact classes *)
+(* coefficients are from_f64 of the f64 evaluation of the expression (unit.rs:177-331) *)
 Definition coef_exact (e : cexpr) : Q :=
   match f_to_q 53 1024 (eval_f 53 1024 p64 m64 e) with Some q => q | None => 0%Q end.
 Definition cons_exact (c : option cexpr) : Q :=
   match c with Some c => coef_exact c | None => 0%Q end.
+Notation evq := (map coef_exact).
 
-Definition q_new (U : list cexpr) (d : list Z) (coef : cexpr) (const : option cexpr) (v : Q) : Q :=
-  to_base CFq (map coef_exact U) d (coef_exact coef) (cons_exact const) v.
-Definition q_get (U : list cexpr) (d : list Z) (coef : cexpr) (const : option cexpr) (v : Q) : Q :=
-  from_base CFq (map coef_exact U) d (coef_exact coef) (cons_exact const) v.
-Definition q_rebase (Ul Ur : list cexpr) (d : list Z) (v : Q) : Q :=
-  change_base CFq (map coef_exact Ul) (map coef_exact Ur) d v.
+(* BigRational-like: values are Q *)
+Definition q_hop (h : hreq Q) : hop StQ :=
+  match h with
+  | HRBin o Ur b => HBin (S:=StQ) (qbin_sem o) (evq Ur) b
+  | HRSame o b => HSame (S:=StQ) (qbin_sem o) b
+  | HRUn o => HUn (S:=StQ) (qun_sem o)
+  end.
+Definition q_run (r : req Q) : list Q :=
+  match r with
+  | RNew U d coef const v => [q_new StQ (evq U) d (coef_exact coef) (cons_exact const) v]
+  | RGet U d coef const v => [q_get StQ (evq U) d (coef_exact coef) (cons_exact const) v]
+  | RRebase ac Ul Ur d v => [rebase StQ ac (evq Ul) (evq Ur) d v]
+  | RBin ac o Ul Ur dr a b =>
+      [if two_base o then q_bin StQ (qbin_sem o) ac (evq Ul) (evq Ur) dr a b else qbin_sem o a b]
+  | RCmp ac o Ul Ur d a b => [inject_Z (zb (q_bin StQ (qcmp_sem o) ac (evq Ul) (evq Ur) d a b))]
+  | RPcmp ac Ul Ur d a b =>
+      [inject_Z (cmp_code (q_bin StQ (fun x y => Some (x ?= y)%Q) ac (evq Ul) (evq Ur) d a b))]
+  | RMulAdd ac U Ua Ub da ds x a b =>
+      [q_muladd StQ (fun x a b => qadd (qmul x a) b) ac (evq U) (evq Ua) (evq Ub) da ds x a b]
+  | RRoundTo r U d coef const v => []
+  | RUn o a => [qun_sem o a]
+  | RHist ac U d init ops => trace_q StQ ac (evq U) d (map q_hop ops) init
+  | RCoef e => [coef_exact e]
+  end.
 
-(* integer classes: conversion() = into Ratio, value() = to_integer *)
-Definition z_new U d coef const (v : Z) : Z := q_to_integer (q_new U d coef const (inject_Z v)).
-Definition z_get U d coef const (v : Z) : Z := q_to_integer (q_get U d coef const (inject_Z v)).
-Definition z_rebase Ul Ur d (v : Z) : Z := q_to_integer (q_rebase Ul Ur d (inject_Z v)).
+(* integer classes: values are Z; conversion() = into Ratio, value() = to_integer *)
+Definition z_hop (h : hreq Z) : hop StZ :=
+  match h with
+  | HRBin o Ur b => HBin (S:=StZ) (zbin_sem o) (evq Ur) b
+  | HRSame o b => HSame (S:=StZ) (zbin_sem o) b
+  | HRUn o => HUn (S:=StZ) (zun_sem o)
+  end.
+Definition z_run (r : req Z) : list Z :=
+  match r with
+  | RNew U d coef const v => [q_new StZ (evq U) d (coef_exact coef) (cons_exact const) v]
+  | RGet U d coef const v => [q_get StZ (evq U) d (coef_exact coef) (cons_exact const) v]
+  | RRebase ac Ul Ur d v => [rebase StZ ac (evq Ul) (evq Ur) d v]
+  | RBin ac o Ul Ur dr a b =>
+      [if two_base o then q_bin StZ (zbin_sem o) ac (evq Ul) (evq Ur) dr a b else zbin_sem o a b]
+  | RCmp ac o Ul Ur d a b => [zb (q_bin StZ (zcmp_sem o) ac (evq Ul) (evq Ur) d a b)]
+  | RPcmp ac Ul Ur d a b => [cmp_code (q_bin StZ (fun x y => Some (x ?= y)) ac (evq Ul) (evq Ur) d a b)]
+  | RMulAdd ac U Ua Ub da ds x a b => []
+  | RRoundTo r U d coef const v => []
+  | RUn o a => [zun_sem o a]
+  | RHist ac U d init ops => trace_q StZ ac (evq U) d (map z_hop ops) init
+  | RCoef e => []
+  end.
